@@ -17,7 +17,7 @@ pub fn prop() -> Prop {
         max_len: 400,
         quick: 40_000,
         thorough: 400_000,
-        rule: "choice sequence -> envelope x recipient list of 1-5 keys from a pool of 10 (4 X25519, 2 each ML-KEM-512/768/1024; duplicates allowed, mixed schemes) x every listed and 2-3 unlisted private keys; encrypt_subject_to_recipients, encrypt_subject_to_recipient, encrypt_to_recipient/decrypt_to_recipient, a later add_recipient with the content key, manual encrypt_subject+add_recipient, seal/unseal over generated sender-scheme x recipient-scheme pairs with right/wrong sender and right/wrong recipient. oracle: the encrypted envelope keeps the specification digest of the original subject and all original assertions plus one 'hasRecipient' assertion per distinct sealing; each listed key decrypts to a subject identical to the original (bytes) with the original assertions still present; each unlisted key gets Err; wrapped form and unseal return an envelope byte-identical to the original; earlier recipients still decrypt after add_recipient; wrong sender / wrong recipient give Err. non-trivial: >=2 recipients or a seal case; distinct by FNV-64 of (encoding, recipient indices)",
+        rule: "choice sequence -> envelope x recipient list of 1-5 keys from a pool of 10 (4 X25519, 2 each ML-KEM-512/768/1024; duplicates allowed, mixed schemes) x every listed and 2-3 unlisted private keys; encrypt_subject_to_recipients, encrypt_subject_to_recipient, encrypt_to_recipient/decrypt_to_recipient, a later add_recipient with the content key, manual encrypt_subject+add_recipient, seal/unseal over generated sender-scheme x recipient-scheme pairs with right/wrong sender and right/wrong recipient. oracle: the encrypted envelope keeps the specification digest of the original subject and all original assertions plus one 'hasRecipient' assertion per distinct sealing; each listed key decrypts to a subject identical to the original (bytes) with the original assertions still present; each unlisted key gets Err; wrapped form and unseal return an envelope byte-identical to the original; earlier recipients still decrypt after add_recipient; wrong sender / wrong recipient give Err. non-trivial: >=2 recipients or a seal case; distinct by FNV-64 of (encoding, recipient indices); the recipient assertions as later holders leave them: one 'hasRecipient' assertion salted / annotated, the predicate obscured everywhere, one sealed message or its assertion obscured - every recipient whose sealed message is still readable opens to the original subject, at most one distinct recipient is locked out",
         assumptions: &["X25519 / ML-KEM / ChaCha20-Poly1305 are secure: an unlisted key cannot decrypt by chance", "ML-KEM keys are not seedable and differ per run"],
         extra: None,
     }
@@ -188,6 +188,66 @@ pub fn run(data: &[u8], ctx: &mut Ctx) -> Outcome {
             check!(ctx, wr.is_err(), "seal", "C10/seal/wrong-recipient", "unseal succeeded with a wrong recipient key");
         }
         ctx.nontrivial = true;
+    }
+    // --- drawn last: the recipient assertions as later holders may leave them. With the subject encrypted
+    // to the listed recipients, (a) one 'hasRecipient' assertion gets a salt or a note of its own,
+    // (b) the predicate 'hasRecipient' is obscured everywhere (lookups go by digest), (c) one recipient's
+    // sealed message (or its whole assertion) is obscured: no digest changes, and every recipient whose
+    // sealed message is still readable opens the envelope to the original subject.
+    if subject_encryptable && src.chance(72) {
+        if let Ok(enc) = e.encrypt_subject_to_recipients(&recips) {
+            let has_recipient = Envelope::new(known_values::HAS_RECIPIENT);
+            let sealed_assertions = enc.assertions_with_predicate(known_values::HAS_RECIPIENT);
+            if !sealed_assertions.is_empty() {
+                let pick = sealed_assertions[src.below(sealed_assertions.len())].clone();
+                let style = src.below(4);
+                // the digest of 'hasRecipient' may also belong to an element of the original envelope (its
+                // subject, say): obscuring "the predicate" would then obscure that element too
+                let hr = M::Known(5).digest();
+                let style = if style == 1 && m.elements().iter().any(|x| x.digest() == hr) { 3 } else { style };
+                let action = match src.below(3) {
+                    0 => ObscureAction::Elide,
+                    1 => ObscureAction::Encrypt(bridge::case_key()),
+                    _ => ObscureAction::Compress,
+                };
+                let (name, changed, all_must_open): (&str, Envelope, bool) = match style {
+                    0 => {
+                        let decorated = if src.bool() { pick.add_salt() } else { pick.add_assertion(known_values::NOTE, "added for the board") };
+                        ("decorated-hasRecipient-assertion", nopanic!(ctx, enc.replace_assertion(pick.clone(), decorated).map_err(|x| x.to_string()), "held", "C10/held").unwrap_or(enc.clone()), true)
+                    }
+                    1 => ("hasRecipient-predicate-obscured", nopanic!(ctx, enc.elide_removing_target_with_action(&has_recipient, &action), "held", "C10/held"), true),
+                    2 => ("one-sealed-message-obscured", nopanic!(ctx, enc.elide_removing_target_with_action(&pick.as_object().unwrap(), &action), "held", "C10/held"), false),
+                    _ => ("one-hasRecipient-assertion-obscured", nopanic!(ctx, enc.elide_removing_target_with_action(&pick, &action), "held", "C10/held"), false),
+                };
+                ctx.class(&format!("held:{}", name));
+                let hkey = format!("C10/held/{}", name);
+                if style != 0 {
+                    check!(ctx, changed.digest() == enc.digest(), "held", &hkey, "obscuring changed the digest");
+                }
+                let mut opened = 0usize;
+                for &i in &distinct {
+                    let r = nopanic!(ctx, changed.decrypt_subject_to_recipient(&pool.enc[i].private).map(|d| d.subject().to_cbor_data()).map_err(|x| x.to_string()), "held", &hkey);
+                    match r {
+                        Ok(b) => {
+                            check!(ctx, b == subject_bytes, "held", &hkey, "a recipient decrypted to another subject");
+                            opened += 1;
+                        }
+                        Err(err) => {
+                            check!(ctx, !all_must_open, "held", &hkey, "listed recipient {}#{} can no longer open the envelope ({}): {}", pool.enc[i].scheme, i, name, err);
+                        }
+                    }
+                }
+                // one sealed message was made unreadable: at most the recipients it was for are locked out
+                // (duplicates in the list have further sealed messages of their own)
+                check!(ctx, opened + 1 >= distinct.len(), "held", &hkey, "one sealed message was obscured, yet only {} of {} distinct recipients can still open the envelope", opened, distinct.len());
+                let outsider = (0..pool.enc.len()).find(|i| !distinct.contains(i));
+                if let Some(o) = outsider {
+                    let r = nopanic!(ctx, changed.decrypt_subject_to_recipient(&pool.enc[o].private), "held", &hkey);
+                    check!(ctx, r.is_err(), "held", &hkey, "an unlisted key opened the envelope");
+                }
+                ctx.nontrivial = true;
+            }
+        }
     }
     if listed.len() >= 2 {
         ctx.nontrivial = true;
